@@ -459,6 +459,13 @@ class World(BaseWorld):
             self.note("F5_fired")
             self.check_slots()
             return "interrupted"
+        except NotImplementedError as err:
+            t["status"] = "dead"
+            if t["kind"] != "normalize" or M.is_connected(t["src_model"]):
+                raise self.vio("termination" if t["kind"] == "normalize" else "exception",
+                               "%s raised NotImplementedError at step %d: %s" % (t["kind"], t["steps"], str(err)[:120]))
+            self.note("normaliser_refused_disconnected")      # reported non-termination of a disconnected diagram
+            return "refused after %d" % t["steps"]
         except Exception as err:
             t["status"] = "dead"
             raise self.vio("exception", "%s raised %s: %s at step %d" % (
@@ -575,6 +582,14 @@ class World(BaseWorld):
                     got = next(gen)
                 except StopIteration:
                     return True, t["cycle"], t["last"], t["prev"], tr.count
+                except NotImplementedError as err:
+                    if M.is_connected(model):
+                        raise self.vio("termination", "normalize raised NotImplementedError on a connected "
+                                       "diagram at step %d: %s" % (t["steps"], str(err)[:120]))
+                    # "non-termination is reported as NotImplementedError": a normaliser that reports it
+                    # itself, for a diagram that is not connected, is within the statement
+                    self.note("normaliser_refused_disconnected")
+                    return False, t["cycle"], t["last"], t["prev"], tr.count
                 except Exception as err:
                     raise self.vio("exception", "normalize raised %s: %s at step %d" % (
                         type(err).__name__, err, t["steps"]))
@@ -664,7 +679,10 @@ class World(BaseWorld):
         if o2 != "value" or nf2 != nf:
             raise self.vio("fixed-point", "normal_form(normal_form(d)) is %s" % (
                 o2 if o2 != "value" else "another diagram"))
-        first = next(iter(nf.normalize(left=left)), None)
+        try:
+            first = next(iter(nf.normalize(left=left)), None)
+        except Exception:
+            first = None
         if first is not None:
             # not demanded by the statement (the fixed point is about normal_form); recorded only
             self.note("normaliser_on_normal_form_yields_a_step")
